@@ -322,6 +322,18 @@ def runTreeCmd (n : Node) (k : Nat) (cmd : Sexp) : Option String :=
     let g := d.foldl (fun (acc : Option Node) (q : List Bool × Node × Node) =>
       acc.bind fun a => setPath H false a q.1 q.2.2) (some n)
     pure (join [kv (p ++ ".graft") (rootO g), kv (p ++ ".target") (hexOf (b.root H))])
+  | .list (.atom "diffw" :: ws) => do
+    -- the second tree is derived from the first by writes (failed writes are skipped)
+    let ws ← ws.mapM fun w => match w with
+      | .list [.atom "w", g, e, v] => do pure (← atomNat g, (← atomNat e) != 0, ← toTree H v)
+      | _ => none
+    let b := ws.foldl (fun (acc : Node) (w : Nat × Bool × Node) => (setter H acc w.1 w.2.1 w.2.2).getD acc) n
+    let d := getDiff H n b
+    let dp := getDiffPos H n b
+    let g := dp.foldl (fun (acc : Option Node) (q : List Bool × Node × Node) =>
+      acc.bind fun a => setPath H false a q.1 q.2.2) (some n)
+    pure (join [kv (p ++ ".diffw") (String.intercalate "," (d.map fun (x, y) => nodeStr x ++ "/" ++ nodeStr y)),
+      kv (p ++ ".graft") (rootO g), kv (p ++ ".target") (hexOf (b.root H))])
   | .list [.atom "leaves"] =>
     pure (kv (p ++ ".leaves") (String.intercalate "," ((leafIter n).map fun l => hexOf (l.root H))))
   | .list (.atom "hist" :: g :: trees) => do
@@ -494,12 +506,13 @@ def viewLen (t : Ty) (n : Node) : Option Nat :=
   | _ => none
 
 inductive POp where
-  | read | elem (i : Nat) | len | bytes | root | mut (op : HOp)
+  | read | elem (i : Nat) | len | bytes | root | mut (op : HOp) | slice (a b : Nat)
 
 def toPOp : Sexp → Option POp
   | .list [.atom "read"] => some .read
   | .list [.atom "elem", i] => (atomNat i).map .elem
   | .list [.atom "len"] => some .len
+  | .list [.atom "slice", a, b] => do pure (.slice (← atomNat a) (← atomNat b))
   | .list [.atom "bytes"] => some .bytes
   | .list [.atom "root"] => some .root
   | s => (toHOp s).map .mut
@@ -517,6 +530,13 @@ def runPOps (t : Ty) (n0 : Node) (ops : List POp) (key : String) : List String :
         | .read => (n, okStr ((Impl.readVal H t n).map valStr))
         | .elem i => (n, okStr ((readElem t n i).map valStr))
         | .len => (n, okStr ((viewLen t n).map toString))
+        | .slice a b =>
+          -- an in-range slice (both bounds reduced modulo the current length) = the element reads in order
+          (n, okStr ((viewLen t n).bind fun ln =>
+            let a' := a % (ln + 1)
+            let b' := a' + b % (ln - a' + 1)
+            ((List.range (b' - a')).mapM fun j => (readElem t n (a' + j)).map valStr).map fun xs =>
+              toString a' ++ ":" ++ toString b' ++ ":" ++ String.intercalate "," xs))
         | .bytes => (n, okStr ((Impl.serTree H t n).map fun p => hexOf p.1))
         | .root => (n, "ok:" ++ hexOf (n.root H))
         | .mut ho =>
